@@ -5537,13 +5537,18 @@ class CodegenCtx:
         else:
             raise NotImplementedError("unsupported intexpr type", intexpr)
 
+    def _string_bytes(self, value: Union[bytes, str]) -> bytes:
+        """
+        The bytes a string value denotes: characters below 256 (including those from \\xHH escapes) are single bytes, as they
+        are for matches; anything else is UTF-8 encoded.
+        """
+        if type(value) is not str:
+            return bytes(value)
+        return b"".join(bytes([ord(x)]) if ord(x) < 256 else x.encode('utf-8') for x in value)
+
     def _escape_string(self, value: Union[bytes, str]):
         result = ""
-        if type(value) is str:
-            bytes_value = value.encode('utf-8')
-        else:
-            bytes_value = value
-        for i in bytes_value:
+        for i in self._string_bytes(value):
             if chr(i) in ["\\", '"']:
                 result += "\\" + chr(i)
             elif not (32 <= i < 127):
@@ -5561,10 +5566,7 @@ class CodegenCtx:
         Must ensure value is short enough first.
         """
 
-        if isinstance(value, str):
-            escaped_length = len(value.encode('utf-8'))
-        else:
-            escaped_length = len(value)
+        escaped_length = len(self._string_bytes(value))
 
         return f"memcpy(state->c.{into.name}, \"{self._escape_string(value)}\", {escaped_length if not into.str_null else escaped_length+1});"
 
